@@ -26,7 +26,7 @@ Proof. exact C06Proof.keeps_run_ops. Qed.
 Print Assumptions c06_sequences.
 
 Theorem c06_initial : forall P c (p : P) sc cs,
-  Forall (fun o => match o with OFail e => exn_isa e Exception_ = true | ONormal => True end) sc ->
+  Forall (fun o => match o with OFail e => exn_isa e Exception_ = true | ONormal => True | OLate _ => False end) sc ->
   Inv P c (init_world p sc cs).
 Proof. intros P c p sc cs H. split; [exact H|reflexivity]. Qed.
 
